@@ -1,19 +1,52 @@
 """C11 — stop and cancel end the whole execution tree; late results change nothing."""
+import json
+
 GEN = ['states']
 MANIFEST = {
-    'technique': 'Lean 4 invariants over an executable engine model (step-by-step refinement check against the real '
-                 'engine) + exhaustive lifecycle table check + trace monitors on generated stop histories',
-    'text': 'Theorems: finished_is_inert (once the workflow is final EVERY event leaves the task set and the workflow '
-            'state unchanged), stop_sets_requested_state, stop_error_on_paused_full_fails (witness of known finding E). '
-            'Tied by the core stream (model = real after every event) and the exhaustive lifecycle stream (every state x '
-            'every operation on the real objects). Cancel recursion into sub-workflows and "reported to the parent exactly '
-            'once" are decided by monitors / C09, not by theorems here.',
-    'note': 'One event = one committed transaction; sub-workflow trees are not in Mistral.Engine.',
+    'technique': 'Lean 4 invariants over two executable models tied to the real engine step by step: the engine core of '
+                 'ONE workflow (Mistral.Engine) and the execution TREE (Mistral.Tree: workflow executions linked to the '
+                 'task executions that started them, with the transactions of stop / cancel incl. the recursion into '
+                 'sub-workflows, the child-result hand-off to plain and with-items parent tasks, and every post-commit / '
+                 'RPC / scheduler delivery in between) + exhaustive lifecycle table check + trace monitors on generated '
+                 'stop histories',
+    'text': 'Single workflow (Mistral.Props.C11 over Mistral.Engine): finished_is_inert, stop_sets_requested_state, '
+            'stop_only_requested. Tree (Mistral.Props.C11Tree over Mistral.Tree, ALL definitions / trees / event '
+            'histories, by an invariant `Good` every transaction satisfies): stop_holds_requested_state (a RUNNING '
+            'execution anywhere in the tree takes the requested state and the message in the transaction of the request); '
+            'cancel_reached (everything the recursion of stop_workflow(CANCELLED) reaches is CANCELLED with the message in '
+            'the SAME transaction and registers exactly one more result message), cancel_subtree_partial (in a tree where '
+            'no finished execution has an unfinished child EVERY unfinished descendant is cancelled) and '
+            'cancel_subtree_full_fails (the recursion skips finished children: known finding); finished_is_inert (state, '
+            'output, accepted flag of a finished execution never change under ANY continuation: late results, start '
+            'messages, child results, further stops); message_kept_partial (ERROR / CANCELLED keep state_info and are never '
+            'reported again) and message_kept_full_fails (second stop(SUCCESS): known finding); no_new_task_in_finished '
+            '(no task row is ever created in a finished execution), no_new_task_in_cancelled_nodes_partial and '
+            'no_new_task_below_cancelled_full_fails (run_task ignores the workflow state: a sub-workflow is started below a '
+            'cancelled workflow: known finding); reported_once (a FAILED / CANCELLED sub-workflow has exactly one result '
+            'message registered in every reachable state, an unfinished one none) and reported_once_full_fails (a SUCCESS '
+            'child re-stopped). Ties: core stream (Mistral.Engine = real after EVERY event), tree stream (Mistral.Tree = '
+            'real after EVERY event on generated trees: all workflow and task execution rows incl. state_info / output '
+            'class / accepted / registered and processed result messages / with-items bookkeeping, and the multiset of '
+            'pending deliveries), lifecycle stream (exhaustive). The `_full_fails` witnesses are replayed on the real '
+            'engine on every run (corpus/C11/tree_*.json).',
+    'note': 'One event = one committed transaction (in-process atomicity); multi-process sub-transaction races are not '
+            'exhibited. Mistral.Tree has no joins / data flow / policies / pause / rerun (Mistral.Engine and the other '
+            'properties cover those for a single workflow). "The parent task of a cancelled child becomes CANCELLED" and '
+            '"exactly one result message is PROCESSED once everything pending is delivered" are decided by the tree '
+            'stream (registered / processed counters compared after every event) and its monitors at quiescence, not by a '
+            'theorem; pause / resume propagation in the tree (C10): monitors only.',
 }
 RULE = ('stream lifecycle (exhaustive); stream core (mode stop/mixed); stream engine (mode stop): stop(SUCCESS|ERROR|'
-        'CANCELLED) at a random point of generated runs; non-trivial = trace with a stop command')
-TRUSTED = ['harness seams replaced by recorders']
-LEAN_MODULES = ['Mistral.Props.C11']
+        'CANCELLED) at a random point of generated runs; stream tree: generated case = nesting depth 2..3 x per level 1..2 '
+        'sub-workflow tasks side by side (plain / with-items 1..3 items / concurrency 1..2) with on-success / on-error '
+        'continuations (some calling the next level again) and an extra action task x start mode (in-process / '
+        'start_subworkflows_via_rpc) x action results x 0..3 operator commands stop(CANCELLED|ERROR|SUCCESS) on the root '
+        'or an inner / running execution at random points x schedule policy (random / fifo / lifo) of all pending '
+        'deliveries; non-trivial = trace with a stop command; distinct = distinct case descriptions')
+TRUSTED = ['harness seams replaced by recorders',
+           'tree stream: executions and task executions are identified by creation rank; state_info / output are compared '
+           'by class (none / the operator message / engine-computed)']
+LEAN_MODULES = ['Mistral.Props.C11', 'Mistral.Props.C11Tree']
 
 
 def correspond(ctx):
@@ -25,12 +58,32 @@ def correspond(ctx):
                      + [{'n_programs': ctx.n(10, 300), 'mode': 'mixed'}] * 7)
     par.run_parallel(ctx, 'harness.engine_stream', 'run_chunk',
                      [{'n_programs': ctx.n(10, 300), 'props': ['C11'], 'mode': 'stop'}] * 14)
+    par.run_parallel(ctx, 'harness.tree_stream', 'run_chunk', [{'n_cases': ctx.n(8, 120)}] * 14)
 
 
 def search(ctx):
-    pass
+    """Failing-input search after a broken obligation / disagreement: the tree monitors on a widened population
+    (every case with operator commands, other seeds); the corpus witnesses run again."""
+    from vlib import par
+    seed = ctx.seed
+    ctx.seed = seed + 1000
+    try:
+        par.run_parallel(ctx, 'harness.tree_stream', 'run_chunk', [{'n_cases': 25, 'gen_kw': {'p_ops': 1.0}}] * 14)
+    finally:
+        ctx.seed = seed
 
 
 def replay(ctx, rep):
+    r = rep.get('replay', rep)
+    if isinstance(r, dict) and r.get('kind') == 'tree':
+        from harness import boot
+        boot.boot()
+        from harness import tree_stream as T
+        n0 = len(ctx.violations) + len(ctx.known_hit)
+        T.run_replay(ctx, {'case': r['case'], 'script': r.get('script')})
+        print('replay: tree -> %d hit(s)' % (len(ctx.violations) + len(ctx.known_hit) - n0))
+        for v in ctx.violations:
+            print('  ', v['what'][:300], json.dumps(v['signature']))
+        return
     from harness import engine_stream
     engine_stream.replay(ctx, rep, ['C11'])
